@@ -93,6 +93,11 @@ def _table(inp):
         feats = {"i": pl.Series(r.integers(-5, 5, size=n), dtype=pl.Int64),
                  "f": pl.Series(r.normal(size=n), dtype=pl.Float64),
                  "s": pl.Series([f"a{j}" if j % 3 else None for j in range(n)], dtype=pl.Utf8),
+                 # special values: float NaN next to genuine nulls, strings that look like missing-value markers
+                 "g": pl.Series([float("nan") if j % 4 == 1 else (None if j % 4 == 3 else 0.5 * j) for j in range(n)],
+                                dtype=pl.Float64),
+                 "t": pl.Series([["NA", "nan", "null", "NaN", "x y", "N/A"][j % 6] if j % 5 else None for j in range(n)],
+                                dtype=pl.Utf8),
                  "b": pl.Series([bool(j % 2) for j in range(n)], dtype=pl.Boolean)}
     m = Molecules(pos, rot, features=pl.DataFrame(feats) if feats else None)
     for step in inp.get("history", []):
@@ -175,7 +180,7 @@ def run_case(inp):
                 # single precision of the coordinates)
                 ftol = (0.5 * 10.0 ** (-prec) * 1.001) if csv else 0.0
                 ok = all((x is None and y is None) or (x is not None and y is not None
-                                                        and abs(x - y) <= ftol + 4e-16 * max(1.0, abs(x)))
+                                                        and ((x != x and y != y) or abs(x - y) <= ftol + 4e-16 * max(1.0, abs(x))))
                          for x, y in zip(a, b))
             else:
                 ok = a == b
